@@ -571,6 +571,47 @@ def padding_witness(chk, tools):
                     'an eightbyte of padding only gets an INTEGER register from c2m and none from gcc: ' + PADDING_WITNESS)
 
 
+# GNU C: zero-length arrays and empty structs as members (c2m accepts them with a warning).  Outside C11, the
+# theorems (wf_ty) and the models: c2m is compared with gcc only.  TEMPORARY gate until fixes/C08-8.patch is in
+# /repo: the unfixed tree gives every zero-size member offset 0 and lets it take no part in the layout
+# (`struct { int n; char d[0]; }`: d at offset 0, gcc 4); while the witness shows exactly that, the stream is skipped.
+GNUEXT_WITNESS = 's{ n bint ; n a0 bchar }'
+
+
+def gnuext_part(chk, tools, n):
+    w = G.parse_text(GNUEXT_WITNESS)
+    res, info = tools.layout([w])
+    chk.count('Z ' + GNUEXT_WITNESS)
+    if res[0]['c2m'] != res[0]['gcc']:
+        if (res[0]['c2m'], res[0]['gcc']) == ('4 4 m0:4 m0:0', '4 4 m0:4 m4:0'):
+            chk.dist('gnu_zero_size_members', 'stream skipped: the tree has the known zero-size member defect (fixes/C08-8.patch not applied)')
+            chk.log('GNU zero-size members: witness %s shows the defect fixes/C08-8.patch repairs; stream skipped' % GNUEXT_WITNESS)
+            return
+        chk.finding('layout-gnuext:' + GNUEXT_WITNESS, dict(kind='gnuext', decl=GNUEXT_WITNESS, c2m=res[0]['c2m'], gcc=res[0]['gcc']),
+                    'c2m and gcc lay out a struct with a zero-length array member differently: %s c2m[%s] gcc[%s]' % (
+                        GNUEXT_WITNESS, res[0]['c2m'], res[0]['gcc']))
+        return
+    rng = chk.rng('gnuext')
+    g = G.Gen(rng, flex=False)
+    decls = [G.add_zero_size_members(rng, g.decl()) for _ in range(n)]
+    res, info = tools.layout(decls)
+    bad = [(t, r) for t, r in zip(decls, res) if r['c2m'] is None or r['c2m'] != r['gcc']]
+    for t, r in zip(decls, res):
+        chk.count('Z ' + G.ty_text(t), nontrivial=True)
+    chk.dist('gnu_zero_size_members', 'compared c2m = gcc', len(decls) - len(bad))
+    chk.dist('gnu_zero_size_members', 'differ', len(bad))
+    chk.log('GNU zero-size members: %d declarations, %s' % (len(decls), '%d differ' % len(bad) if bad else 'c2m = gcc on all'))
+    for t, r in bad[:3]:
+        def fails(c):
+            rr, _ = tools.layout([c])
+            return rr[0]['gcc'] is not None and rr[0]['c2m'] != rr[0]['gcc']
+        small = G.shrink(t, fails, max_steps=120)
+        rr, _ = tools.layout([small])
+        txt = G.ty_text(small)
+        chk.finding('layout-gnuext:' + txt, dict(kind='gnuext', decl=txt, c2m=rr[0]['c2m'], gcc=rr[0]['gcc'], original=G.ty_text(t)),
+                    'c2m and gcc lay out a declaration with zero-size members (GNU C) differently: %s  c2m[%s] gcc[%s]' % (txt, rr[0]['c2m'], rr[0]['gcc']))
+
+
 def libc_part(chk, tools):
     """harness/c08_libc.c under c2m (-ei, -eg) and gcc: identical output lines"""
     src = os.path.join(vlib.VERIF, 'harness', 'c08_libc.c')
@@ -659,6 +700,7 @@ def run(chk):
         for b in range(pb):
             passing_part(chk, tools, gen_small(chk, pper, 'passing%d' % b), 'passing batch %d' % b)
         libc_part(chk, tools)
+        gnuext_part(chk, tools, 150 if quick else 1500)
         if not quick:
             sanitizer_part(chk, tools)
             if r['ok']:
@@ -718,6 +760,13 @@ def replay(chk, path):
             v = kverdict(t, r)
             print('verdict:', v)
             return 0 if v == 'ok' else 1
+        if rp.get('kind') == 'gnuext':
+            t = G.parse_text(rp['decl'])
+            res, info = tools.layout([t])
+            print('decl :', rp['decl'])
+            print('c2m  :', res[0]['c2m'])
+            print('gcc  :', res[0]['gcc'])
+            return 0 if res[0]['c2m'] == res[0]['gcc'] else 1
         if rp.get('kind') == 'libc':
             before = len(chk.violations)
             libc_part(chk, tools)
